@@ -3,9 +3,11 @@
 import difflib, sys, os
 name, rel, old, new = sys.argv[1:5]
 old = old.encode().decode('unicode_escape'); new = new.encode().decode('unicode_escape')
-src = open(os.path.join('/repo', rel)).read()
+src = open(os.path.join('/repo', rel), newline='').read()
+if '\r\n' in src:
+    old = old.replace('\n', '\r\n'); new = new.replace('\n', '\r\n')
 assert src.count(old) == 1, 'pattern occurs %d times' % src.count(old)
 dst = src.replace(old, new)
 diff = ''.join(difflib.unified_diff(src.splitlines(True), dst.splitlines(True), 'a/' + rel, 'b/' + rel))
-open(os.path.join('/verif/mutants', name + '.patch'), 'w').write(diff)
+open(os.path.join('/verif/mutants', name + '.patch'), 'w', newline='').write(diff)
 print('wrote', name)
